@@ -142,7 +142,7 @@ def drive(ctx, handler, parsers, module_isoparse, rng, entry, form, text, kinds)
             arg = text
     elif r < .22:
         arg = io.StringIO(text)
-    sep = rng.choice([None, None, 'T', ' '])
+    sep = rng.choice([None, None, 'T', ' ']) if rng.random() < .8 else rng.choice([k for k in parsers if k not in (None, 'T', ' ')] or [None])
     p = parsers[sep]
     try:
         if entry == 'isoparse':
@@ -175,6 +175,9 @@ def run(ctx):
     uninstall = mon_iso.install(handler)
     try:
         parsers = {None: P.isoparser(), 'T': P.isoparser(sep='T'), ' ': P.isoparser(sep=' ')}
+        # separators that also occur inside dates, times and offsets: only the character directly after the date counts
+        for ch in ':-+.,ZzWx/_':
+            parsers[ch] = P.isoparser(sep=ch)
         rng = ctx.rng
         for i in range(N_CASES[ctx.tier]):
             if i % 1000 == 0 and not ctx.time_left():
